@@ -16,15 +16,33 @@ from sa.report import RuleResult
 ROOT = 'PyBufrKitError'
 
 # (qualified function, construct) -- reason           (DESIGN appendix A.4)
-EXEMPT = {
-    ('SectionConfigurer.configure_section', 'assert'): 'checks the bundled layout configuration, not message bytes',
-    ('CompilerState.compiled_template', 'assert'): "balance of the compiler's own with-blocks, not message bytes",
-    ('_fix_ncep_descriptors', 'assert'): 'in-stream table repair (NCEP), outside the fault model of C12',
-    ('Coder.process_operator_descriptor', 'raise NotImplementedError'): 'documented unsupported operators 241-243, not damage',
-    ('Coder.process_delayed_replication_descriptor', 'raise NotImplementedError'): 'documented unsupported 031011/031012',
-    ('TemplateCompiler.process_delayed_replication_descriptor', 'raise NotImplementedError'): 'documented unsupported 031011/031012',
-    ('TemplateData.wire_operator_descriptor', 'raise NotImplementedError'): 'documented unsupported operators 241-243',
-}
+# Exemptions: (module, kind, where it was confirmed by hand, normalised text of the construct) -- reason.  An entry matches the
+# construct in its module either at the function where it was confirmed or, after the code has been moved into a helper, by
+# its text (the asserted condition / the message of the exception); it never matches another condition or message.
+EXEMPT = [
+    ('bufr.py', 'assert', 'SectionConfigurer.configure_section', 'nbits % NBITS_PER_BYTE == 0',
+     'checks the bundled layout configuration, not message bytes'),
+    ('templatecompiler.py', 'assert', 'CompilerState.compiled_template', 'len(self.block_stack) == 1',
+     "balance of the compiler's own with-blocks, not message bytes"),
+    ('tables.py', 'assert', '_fix_ncep_descriptors', 'descriptor.n_items == 1',
+     'in-stream table repair (NCEP), outside the fault model of C12'),
+    ('coder.py', 'raise NotImplementedError', 'Coder.process_operator_descriptor', "'Operator Descriptor {} not implemented'.format(descriptor)",
+     'documented unsupported operators 241-243, not damage'),
+    ('coder.py', 'raise NotImplementedError', 'Coder.process_delayed_replication_descriptor', "'delayed repetition descriptor'",
+     'documented unsupported 031011/031012'),
+    ('templatecompiler.py', 'raise NotImplementedError', 'TemplateCompiler.process_delayed_replication_descriptor', "'delayed repetition descriptor'",
+     'documented unsupported 031011/031012'),
+    ('templatedata.py', 'raise NotImplementedError', 'TemplateData.wire_operator_descriptor', "'Operator Descriptor {} not implemented'.format(descriptor)",
+     'documented unsupported operators 241-243'),
+]
+
+
+def exempted(fi, kind, text):
+    mod = fi.module.relpath.split('/')[-1]
+    for e in EXEMPT:
+        if e[0] == mod and e[1] == kind and (e[2] == fi.qualname or e[3] == text):
+            return e
+    return None
 
 
 def is_lib_error(repo, cls):
@@ -49,8 +67,10 @@ def rule_r1(repo):
                 continue
             if is_lib_error(repo, cls):
                 continue
-            if (fi.qualname, 'raise ' + cls) in EXEMPT:
-                used.add((fi.qualname, 'raise ' + cls))
+            msg = norm(r.exc.args[0]) if isinstance(r.exc, ast.Call) and r.exc.args else ''
+            ex = exempted(fi, 'raise ' + cls, msg)
+            if ex is not None:
+                used.add((ex[2], ex[1]))
                 continue
             rr.fail('%s:raise %s' % (fi.qualname, cls), '%s:%d' % (fi.module.relpath, r.lineno),
                     'reachable from Decoder.process: raises %s, which is not a subclass of %s, so it escapes '
@@ -58,8 +78,9 @@ def rule_r1(repo):
         for a in eff.asserts:
             inst = '%s: assert %s' % (fi.qualname, norm(a.test)[:60])
             rr.instance(inst)
-            if (fi.qualname, 'assert') in EXEMPT:
-                used.add((fi.qualname, 'assert'))
+            ex = exempted(fi, 'assert', norm(a.test))
+            if ex is not None:
+                used.add((ex[2], ex[1]))
                 continue
             rr.fail('%s:assert %s' % (fi.qualname, norm(a.test)), '%s:%d' % (fi.module.relpath, a.lineno),
                     'reachable from Decoder.process: an assert on decoded data raises AssertionError (not a %s; '
@@ -70,72 +91,96 @@ def rule_r1(repo):
 
 
 def rule_r2(repo):
-    rr = RuleResult('C12.R2', 'the bit stream is read only through the wrapper that converts bitstring errors')
+    """Folds instead of statement shapes: the reader is evaluated on a stream model that (a) runs out of data, (b) records the
+    formats it is asked for.  How the wrapper is written (try/except/else, a helper that builds the error, f-strings) is irrelevant."""
+    from sa.patheval import Interp, Obj, Raise, Stub, Top, Sym
+    rr = RuleResult('C12.R2', 'the bit stream is read only through the wrapper that converts bitstring errors; every read format is sized')
     cls = repo.cls('BitStringBitReader')
-    wrapper = repo.own_method('BitStringBitReader', '_bit_stream_read')
-    # the wrapper: try { return self.bit_stream.read(..) } except <bitstring error> { raise BitReadError }
-    tries = [n for n in ast.walk(wrapper.node) if isinstance(n, ast.Try)]
-    ok = False
-    for t in tries:
-        reads = [c for s in t.body for c in ast.walk(s) if isinstance(c, ast.Call) and norm(c.func) == 'self.bit_stream.read']
-        if not reads:
-            continue
-        for h in t.handlers:
-            if h.type is None:
-                continue
-            htxt = norm(h.type)
-            raises = [r for s in h.body for r in ast.walk(s) if isinstance(r, ast.Raise)]
-            if raises and all(is_lib_error(repo, exception_class_of_raise(repo, wrapper, r)) for r in raises):
-                # the handler type must be bitstring's root error
-                if htxt in ('self.bitstring_Error', 'bitstring.Error'):
-                    ok = True
-                    if htxt == 'self.bitstring_Error':
-                        init = repo.own_method('BitStringBitReader', '__init__')
-                        src = [norm(n.value) for n in ast.walk(init.node) if isinstance(n, ast.Assign)
-                               and norm(n.targets[0]) == 'self.bitstring_Error']
-                        if src != ['bitstring.Error']:
-                            ok = False
-    rr.instance('BitStringBitReader._bit_stream_read wraps bit_stream.read')
-    if not ok:
-        rr.fail('BitStringBitReader._bit_stream_read:wrap', wrapper.where,
-                '_bit_stream_read does not convert bitstring.Error (the root of ReadError) into a PyBufrKitError subclass')
+    init = repo.own_method('BitStringBitReader', '__init__')
+
+    class I(Interp):
+        def on_call(self, text, callee, args, kwargs, node, frame):
+            if text in ('bitstring.BitStream', 'bitstring.ConstBitStream', 'bitstring.BitArray', 'bitstring.Bits'):
+                return self.stream
+            if text.startswith('log.'):
+                return None
+            return self.NOT_HANDLED
+
+    def reader(short):
+        it = I(repo, 'BitStringBitReader')
+        formats = []
+
+        def read(interp, a, kw, node, frame):
+            formats.append(a[0] if a else kw.get('fmt'))
+            if short:
+                # bitstring: a sized token that runs past the end raises ReadError (a bitstring.Error); the unsized one-token
+                # formats 'bool' raise ValueError / IndexError instead (assumption about the third-party package, see DESIGN)
+                f = a[0] if a else None
+                if isinstance(f, str) and ':' not in f.split('=')[0]:
+                    raise Raise('ValueError', node, interp.where(node, frame))
+                raise Raise('bitstring.ReadError', node, interp.where(node, frame), Obj('bitstring.ReadError', {'msg': Sym('MSG'), 'args': [Sym('MSG')]}))
+            return Sym('raw%d' % len(formats))
+        it.stream = Stub('bit stream', {'read': read}, attrs={'pos': Sym('POS'), 'len': Sym('LEN'), 'length': Sym('LEN'), 'bitpos': Sym('POS')})
+        obj = Obj('BitStringBitReader', {})
+        res = it.run_function(init, lambda: {'self': obj, 's': Sym('BYTES')}, self_class='BitStringBitReader')
+        if len(res) != 1 or not res[0].ok:
+            raise AnalysisError('BitStringBitReader.__init__ could not be folded: %s' % [r.describe() for r in res])
+        return it, res[0].locals['self'], formats
+
+    cases = [('read_uint', [n]) for n in (1, 7, 8, 13, 16, 24, 33, 64)] + [('read_bytes', [n]) for n in (1, 4, 9)] + \
+            [('read_bin', [n]) for n in (1, 6, 32)] + [('read_int', [n]) for n in (2, 9, 16)] + [('read_bool', [])] + \
+            [('read_uint_or_none', [n]) for n in (1, 4, 8)]
+    # any further read_* method the reader class has grown
+    for name, mfi in sorted(cls.methods.items()):
+        if name.startswith('read_') and not any(name == c[0] for c in cases):
+            cases.append((name, [8] * (len(mfi.params) - 1)))
+    n_formats = 0
+    for meth, args in cases:
+        fi = repo.method('BitStringBitReader', meth, required=False)
+        if fi is None:
+            raise AnalysisError('BitStringBitReader.%s vanished' % meth)
+        # (a) the stream runs out of data at the first token
+        it, obj, formats = reader(short=True)
+        res = it.run_function(fi, lambda: dict([('self', obj)] + list(zip(fi.params[1:], args))), self_class='BitStringBitReader')
+        rr.instance('%s(%s) on exhausted data' % (meth, ', '.join(map(str, args))))
+        for r in res:
+            if r.ok:
+                rr.fail('BitStringBitReader.%s:short-read' % meth, fi.where, '%s(%s) returns %r although the stream has no data left' % (meth, args, r.value))
+            elif not is_lib_error(repo, r.exc.cls):
+                unsized = [f for f in formats if isinstance(f, str) and ':' not in f.split('=')[0]]
+                if unsized:
+                    rr.fail('BitStringBitReader.%s:unsized-format' % meth, fi.where,
+                            '%s reads the unsized format %r: when the data end here bitstring raises ValueError, not a bitstring.Error, so the '
+                            'wrapper does not turn it into BitReadError (a message truncated at this point fails with a foreign exception)' % (meth, unsized[0]))
+                else:
+                    rr.fail('BitStringBitReader._bit_stream_read:wrap', fi.where,
+                            '%s(%s) past the end of the data raises %s: the bitstring error is not converted into a PyBufrKitError subclass' % (meth, args, r.exc.cls))
+        # (b) formats asked for when data are there
+        it, obj, formats = reader(short=False)
+        res = it.run_function(fi, lambda: dict([('self', obj)] + list(zip(fi.params[1:], args))), self_class='BitStringBitReader')
+        for f in formats:
+            n_formats += 1
+            if not isinstance(f, str):
+                raise AnalysisError('%s(%s): the format handed to the stream does not fold to a string (%r)' % (meth, args, f))
+            if ':' not in f.split('=')[0]:
+                rr.fail('BitStringBitReader.%s:unsized-format' % meth, fi.where,
+                        '%s reads the unsized format %r: when the data end here bitstring raises ValueError, not a bitstring.Error, so the '
+                        'wrapper does not turn it into BitReadError (a message truncated at this point fails with a foreign exception)' % (meth, f))
+        if not formats:
+            rr.fail('BitStringBitReader.%s:no-read' % meth, fi.where, '%s(%s) reads nothing from the stream' % (meth, args))
+    rr.extra = {'formats_folded': n_formats}
+    # who may touch the stream position: only reads of .pos outside the constructor (a stored position skips the length check of read)
     for name, fi in sorted(cls.methods.items()):
         for n in ast.walk(fi.node):
-            if isinstance(n, ast.Attribute) and norm(n.value) == 'self.bit_stream':
-                rr.instance('%s uses self.bit_stream.%s' % (fi.qualname, n.attr))
-                if n.attr == 'pos' and isinstance(n.ctx, ast.Load):
-                    continue
-                if n.attr == 'read' and fi is wrapper:
-                    continue
+            if isinstance(n, ast.Attribute) and n.attr in ('pos', 'bitpos', 'bytepos') and isinstance(n.ctx, (ast.Store, ast.Del)) and 'bit_stream' in norm(n.value):
+                rr.instance('%s stores bit_stream.%s' % (fi.qualname, n.attr))
                 rr.fail('%s:bit_stream.%s' % (fi.qualname, n.attr), '%s:%d' % (fi.module.relpath, n.lineno),
-                        '%s touches the bit stream through .%s outside the error-converting wrapper: a read past '
-                        'the end would surface as a bitstring error, not BitReadError' % (fi.qualname, n.attr))
-        # every read_* method goes through the wrapper or another read_* method
-        if name.startswith('read_'):
-            calls = [norm(c.func) for c in effects(fi).calls]
-            if not any(c == 'self._bit_stream_read' or c.startswith('self.read_') for c in calls):
-                rr.fail('%s:no-wrapper' % fi.qualname, fi.where, '%s does not read through _bit_stream_read' % fi.qualname)
-    # every format handed to the wrapper carries an explicit length: bitstring reports a short read of a sized format with
-    # ReadError (a bitstring.Error, converted above) but of an unsized one-token format such as 'bool' with ValueError
-    for name, fi in sorted(cls.methods.items()):
-        for c in effects(fi).calls:
-            if norm(c.func) != 'self._bit_stream_read' or not c.args:
-                continue
-            a = c.args[0]
-            lits = [x.value for x in ast.walk(a) if isinstance(x, ast.Constant) and isinstance(x.value, str)]
-            if isinstance(a, ast.Name):
-                # a local built by .format in the same function
-                for n in ast.walk(fi.node):
-                    if isinstance(n, ast.Assign) and any(isinstance(t, ast.Name) and t.id == a.id for t in n.targets):
-                        lits += [x.value for x in ast.walk(n.value) if isinstance(x, ast.Constant) and isinstance(x.value, str)]
-            rr.instance('%s reads format(s) %s' % (fi.qualname, lits))
-            if not lits:
-                raise AnalysisError('%s: cannot see the format string handed to _bit_stream_read' % fi.qualname)
-            for l in lits:
-                if ':' not in l:
-                    rr.fail('%s:unsized-format' % fi.qualname, '%s:%d' % (fi.module.relpath, c.lineno),
-                            '%s reads the unsized format %r: when the data end here bitstring raises ValueError, not a bitstring.Error, so the '
-                            'wrapper does not turn it into BitReadError (a message truncated at this point fails with a foreign exception)' % (fi.qualname, l))
+                        '%s moves the stream position by assignment: a seek past the end is not a read, so it is reported by bitstring as ValueError '
+                        '(or not at all) instead of BitReadError' % fi.qualname)
+            if isinstance(n, ast.AugAssign) and isinstance(n.target, ast.Attribute) and n.target.attr in ('pos', 'bitpos', 'bytepos') and 'bit_stream' in norm(n.target.value):
+                rr.fail('%s:bit_stream.%s' % (fi.qualname, n.target.attr), '%s:%d' % (fi.module.relpath, n.lineno),
+                        '%s moves the stream position in place: a seek past the end is not a read, so it is reported by bitstring as ValueError '
+                        '(or not at all) instead of BitReadError' % fi.qualname)
     rr.require_floor(7)
     return rr
 
